@@ -791,8 +791,9 @@ func streamTS(c *cli.Ctx, r *emit.Rng) error {
 		} else {
 			inner = prometheus.MustNewConstHistogram(d, 3, 1.5, map[float64]uint64{1: 1, 2: 3})
 		}
-		var before, pb, after dto.Metric
-		inner.Write(&before)
+		var before0, pb, after dto.Metric
+		inner.Write(&before0)
+		before := proto.Clone(&before0).(*dto.Metric)
 		wm := prometheus.NewMetricWithTimestamp(t, inner)
 		if e := wm.Write(&pb); e != nil {
 			panic(e)
@@ -801,7 +802,7 @@ func streamTS(c *cli.Ctx, r *emit.Rng) error {
 		ms := pb.GetTimestampMs()
 		has := pb.TimestampMs != nil
 		pb.TimestampMs = nil
-		same := has && proto.Equal(&pb, &before) && proto.Equal(&after, &before) && before.TimestampMs == nil
+		same := has && proto.Equal(&pb, before) && proto.Equal(&after, before) && proto.Equal(&before0, before) && before.TimestampMs == nil
 		tags := []string{fmt.Sprintf("before-epoch:%v", t.UnixNano() < 0 || sec < 0), fmt.Sprintf("sub-ms:%v", t.Nanosecond()%1_000_000 != 0)}
 		w.Add(emit.Tup("6", emit.Z(t.Unix()), emit.I(t.Nanosecond()), emit.Z(ms), emit.B(same)), t.Nanosecond()%1_000_000 != 0, tags...)
 	}
@@ -920,14 +921,15 @@ func exCounterCase(r *emit.Rng, bad int) (string, bool, []string) {
 		tags = append(tags, t...)
 	}
 	inner := prometheus.MustNewConstMetric(d, prometheus.ValueType(vt), v, "x")
-	var before, pb, after dto.Metric
-	inner.Write(&before)
+	var before0, pb, after dto.Metric
+	inner.Write(&before0)
+	before := proto.Clone(&before0).(*dto.Metric) // const metrics hand out the same pointers on every Write
 	wm, err := prometheus.NewMetricWithExemplars(inner, toExemplars(exs, r)...)
 	if err == nil {
 		err = wm.Write(&pb)
 	}
 	inner.Write(&after)
-	unchanged := proto.Equal(&before, &after)
+	unchanged := proto.Equal(before, &after) && proto.Equal(before, &before0)
 	var impl string
 	if err != nil {
 		impl = emit.C(0, emit.I(errCode(err)))
